@@ -241,9 +241,10 @@ theorem ref_spelling_roundtrip (name : Name) (h : name.WF) (parentNs : Option St
   obtain ⟨fq, short, ns⟩ := name
   have hsd : NoDot short := h.short_nodot
   unfold refString
-  by_cases h1 : parentNs = ns
-  · subst h1
-    simp only [if_true, refKey, rsplitDot_nodot _ hsd]
+  by_cases h1 : parentNs = ns ∧ (RawType.ofString short).isNone = true
+  · obtain ⟨h1, _⟩ := h1
+    subst h1
+    simp only [true_and, *, if_true, refKey, rsplitDot_nodot _ hsd]
     cases parentNs with
     | none => have := h.ns_none rfl; simp only at this; subst this; rfl
     | some x => have := (h.ns_some x rfl).2; simp only at this; subst this; rfl
